@@ -290,7 +290,7 @@ func (s *LSpec) render() map[string]string {
 			fmt.Fprintf(&b, "import %q\n\n", importPath("commontypes"))
 		}
 		for _, c := range convs {
-			if c.UnsafeZero || c.Exotic == "unsafeptr-list" {
+			if (c.UnsafeZero || c.Exotic == "unsafeptr-list") && !c.GuardedDecl {
 				b.WriteString("import \"unsafe\"\n\n")
 				break
 			}
